@@ -1,8 +1,9 @@
 // ---- prelude for lib.rs slices ----------------------------------------------------------------
-use std::borrow::Cow;
-use std::net::SocketAddr;
+// data-centre names are opaque identifiers in this unit (env.rs: DcName / DcCow)
+use crate::env::SocketAddr;
 
-use std::collections::{BTreeMap, BTreeSet};
+use vcoll::vvec::VVec as Vec;
+use vcoll::{BTreeMap, BTreeSet};
 
 use crate::env::*;
 use crate::node_types::{ClusterMember, NodeMembership};
